@@ -325,10 +325,13 @@ one, the first sub space that has the name in its namespace refuses.  In both ca
 and every sub space is then checked for a cells or a child space of the name (the space itself:
 with a model-level reference of the name the namespace resolves the name to that reference although
 the space has a child space of the name). -/
+def St.newRefOk (st : St) (p : Path) (name : String) : Bool :=
+  if st.globals.contains name then
+    (p :: st.subs p).all (fun q => (st.mem .cells q name).isNone && !(st.childNames q).contains name)
+  else (p :: st.subs p).all (fun q => (st.kindOf q name).isNone)
+
 def St.newRef (st : St) (p : Path) (name : String) (v : Nat) : Option St :=
-  if !(if st.globals.contains name then
-         (p :: st.subs p).all (fun q => (st.mem .cells q name).isNone && !(st.childNames q).contains name)
-       else (p :: st.subs p).all (fun q => (st.kindOf q name).isNone)) then none
+  if !st.newRefOk p name then none
   else
     let st1 := st.setMem .refs p name { derived := false, payload := v }
     some ((st1.subs p).foldl (fun s q => s.newMemberSub .refs p name v q) st1)
